@@ -8,8 +8,8 @@ a run configuration `cfg` (of which only `std`, `policy`, `runProc` matter here)
 The instance is for the CURRENT code: `cfg.panics = false`, so a fixed site is the runtime error
 `site.fallback` and a residual site is `Err.panic`; spans are dropped (`Err.rt` carries the
 `RtKind` only); `read_line` is the empty string (the bridge is for `cfg.input = []`); an index value
-of a receiver / target path is carried as an array of that length (`idxEnc`), since `Prims.idx`
-returns a value.  A number lexeme that does not parse is `0` here (`Lawful.num` needs a value): the
+of a receiver / target path is checked as soon as it is computed (`idxChk`) and decoded where the path
+is walked (`idxDec`).  A number lexeme that does not parse is `0` here (`Lawful.num` needs a value): the
 refinement is for programs whose number lexemes parse (the scanner's guarantee, `NumLitsParse`).
 
 Core-only (linked into `nvdriver`): the driver instantiates `evalPrims` at the float `NumOps` instance
@@ -53,16 +53,22 @@ def liftE {α : Type} : Except Eval.Fault α → Except AEval.Err α
 
 def tmErr : AEval.Err := .rt (rtCode .typeMismatch)
 
-/-! ### Index values as values -/
+/-! ### Index values as values
 
-def idxEnc (n : Nat) : Eval.Value N := .arr (List.replicate n .null)
-def idxDec : Eval.Value N → Nat
-  | .arr xs => xs.length
-  | _ => 0
-
-theorem idxDec_enc (n : Nat) : idxDec (idxEnc (N := N) n) = n := by simp [idxDec, idxEnc]
+`Prims.idx` returns a value: the checked index value itself is carried (a non-negative integral
+number), and decoded again (`idxDec`) where the path is walked.  (A unary encoding — an array of that
+length — would make the instance unusable as a program: `arr[2147483648] get 1`.) -/
 
 def noSpan : Span := ⟨0, 0⟩
+
+def idxDec (v : Eval.Value N) : Nat :=
+  match Eval.indexValue v noSpan with
+  | .ok n => n
+  | .error _ => 0
+
+/-- `eval_index_value`: the check made on an index value as soon as it is computed. -/
+def idxChk (v : Eval.Value N) : Except AEval.Err (Eval.Value N) :=
+  (liftE (Eval.indexValue v noSpan)).map fun _ => v
 
 /-- An evaluated path as `walkMut` / `walkAssign` want it (spans only matter for the error span). -/
 def pathOf (pvs : List (Eval.Value N)) : List (Nat × Span) := pvs.map fun v => (idxDec v, noSpan)
@@ -258,7 +264,7 @@ def evalPrims (cfg : Eval.RunCfg) (ds ss : Nat → Option Nat) : AEval.Prims (Ev
   mutSteps := fun field => match Eval.MutM.ofName field with | some m => mutStepsM m | none => []
   mutMember := mutMemberE
   setPath := setPathE
-  idx := fun v => (liftE (Eval.indexValue v noSpan)).map idxEnc
+  idx := idxChk
   lvErr := tmErr
   dscope := ds
   sscope := ss
